@@ -102,10 +102,13 @@ fn run_and_write(
     case: &Case,
     case_line: &str,
 ) -> std::io::Result<()> {
+    // The CASE line reaches the file before the case runs: if a library call never returns, the
+    // last line of the file names the case.
+    writeln!(out, "{case_line}")?;
+    out.flush()?;
     let t0 = Instant::now();
     let res = run_case(case);
     let micros = t0.elapsed().as_micros();
-    writeln!(out, "{case_line}")?;
     for l in &res.lines {
         writeln!(out, "{l}")?;
     }
